@@ -1,4 +1,4 @@
-CONSTANTS NIn = 2  MaxMut = 1
+CONSTANTS NIn = 3  MaxMut = 1
 SPECIFICATION RSpec
 INVARIANTS RRetIffBacked RaiseHasReason
 CHECK_DEADLOCK FALSE
